@@ -17,6 +17,14 @@ thread_local! {
     static FULL: RefCell<Vec<String>> = const { RefCell::new(Vec::new()) };
 }
 fn full(n: usize, k: &str) { FULL.with(|f| f.borrow_mut().push(format!("{}:{}", n, k))); }
+thread_local! {
+    /// pair mode (`W`): the notification's payload (span ids, the event's callsite) is logged too, so that a wrapper
+    /// that forwards the right call with the wrong arguments is seen
+    static PAYLOAD: std::cell::Cell<bool> = const { std::cell::Cell::new(false) };
+}
+fn fullp(n: usize, k: &str, payload: impl FnOnce() -> String) {
+    if PAYLOAD.with(|p| p.get()) { full(n, &format!("{}[{}]", k, payload())) } else { full(n, k) }
+}
 
 #[derive(Clone, Copy)]
 enum RecKind { Plain, MetaVeto(usize), EventVeto(usize), Never(usize) }
@@ -29,7 +37,7 @@ impl<C: tracing::Collect + for<'a> tracing_subscriber::registry::LookupSpan<'a>>
     fn on_register_dispatch(&self, _: &Dispatch) { full(self.0, "dispatch"); }
     fn on_subscribe(&mut self, _: &mut C) { full(self.0, "subscribe"); }
     fn register_callsite(&self, m: &'static Metadata<'static>) -> Interest {
-        full(self.0, "callsite");
+        fullp(self.0, "callsite", || format!("{}@{}", m.name(), m.target()));
         match self.1 {
             RecKind::MetaVeto(_) => Interest::sometimes(),
             RecKind::Never(k) if rank(m.level()) > k => Interest::never(),
@@ -37,20 +45,20 @@ impl<C: tracing::Collect + for<'a> tracing_subscriber::registry::LookupSpan<'a>>
         }
     }
     fn enabled(&self, m: &Metadata<'_>, _: Context<'_, C>) -> bool {
-        full(self.0, "enabled");
+        fullp(self.0, "enabled", || format!("{}@{}", m.name(), m.target()));
         match self.1 { RecKind::MetaVeto(k) | RecKind::Never(k) => rank(m.level()) <= k, _ => true }
     }
     fn event_enabled(&self, e: &Event<'_>, _: Context<'_, C>) -> bool {
-        full(self.0, "event_enabled");
+        fullp(self.0, "event_enabled", || format!("{}@{}", e.metadata().name(), e.metadata().target()));
         match self.1 { RecKind::EventVeto(k) => rank(e.metadata().level()) <= k, _ => true }
     }
-    fn on_follows_from(&self, _: &span::Id, _: &span::Id, _: Context<'_, C>) { full(self.0, "follows"); }
-    fn on_event(&self, _: &Event<'_>, _: Context<'_, C>) { full(self.0, "event"); RECV.with(|r| r.borrow_mut().push(self.0)); }
-    fn on_new_span(&self, _: &span::Attributes<'_>, _: &span::Id, _: Context<'_, C>) { full(self.0, "new_span"); RECV.with(|r| r.borrow_mut().push(self.0)); }
-    fn on_enter(&self, _: &span::Id, _: Context<'_, C>) { full(self.0, "enter"); RECV.with(|r| r.borrow_mut().push(self.0)); }
-    fn on_exit(&self, _: &span::Id, _: Context<'_, C>) { full(self.0, "exit"); RECV.with(|r| r.borrow_mut().push(self.0)); }
-    fn on_record(&self, _: &span::Id, _: &span::Record<'_>, _: Context<'_, C>) { full(self.0, "record"); RECV.with(|r| r.borrow_mut().push(self.0)); }
-    fn on_close(&self, _: span::Id, _: Context<'_, C>) { full(self.0, "close"); RECV.with(|r| r.borrow_mut().push(self.0)); }
+    fn on_follows_from(&self, a: &span::Id, b: &span::Id, _: Context<'_, C>) { fullp(self.0, "follows", || format!("{}<{}", a.into_u64(), b.into_u64())); }
+    fn on_event(&self, e: &Event<'_>, _: Context<'_, C>) { fullp(self.0, "event", || format!("{}@{}", e.metadata().name(), e.metadata().target())); RECV.with(|r| r.borrow_mut().push(self.0)); }
+    fn on_new_span(&self, a: &span::Attributes<'_>, id: &span::Id, _: Context<'_, C>) { fullp(self.0, "new_span", || format!("{}={}@{}", id.into_u64(), a.metadata().name(), a.metadata().target())); RECV.with(|r| r.borrow_mut().push(self.0)); }
+    fn on_enter(&self, id: &span::Id, _: Context<'_, C>) { fullp(self.0, "enter", || id.into_u64().to_string()); RECV.with(|r| r.borrow_mut().push(self.0)); }
+    fn on_exit(&self, id: &span::Id, _: Context<'_, C>) { fullp(self.0, "exit", || id.into_u64().to_string()); RECV.with(|r| r.borrow_mut().push(self.0)); }
+    fn on_record(&self, id: &span::Id, _: &span::Record<'_>, _: Context<'_, C>) { fullp(self.0, "record", || id.into_u64().to_string()); RECV.with(|r| r.borrow_mut().push(self.0)); }
+    fn on_close(&self, id: span::Id, _: Context<'_, C>) { fullp(self.0, "close", || id.into_u64().to_string()); RECV.with(|r| r.borrow_mut().push(self.0)); }
 }
 
 fn take_recv() -> String {
@@ -143,6 +151,7 @@ fn run_pair(line: &[&str], uni: &[&'static Metadata<'static>]) -> String {
     let s1 = line.iter().position(|t| *t == ";;").expect(";;");
     let s2 = s1 + 1 + line[s1 + 1..].iter().position(|t| *t == ";;").expect("second ;;");
     let mut logs = Vec::new();
+    PAYLOAD.with(|p| p.set(true));
     for stack in [&line[1..s1], &line[s1 + 1..s2]] {
         FULL.with(|f| f.borrow_mut().clear());
         if stack.iter().all(|t| ["none", "empty", "(", ")", "@box", "@arc"].contains(t)) { logs.push("-".to_string()); continue; }
